@@ -56,6 +56,11 @@ def requests(thorough, rng):
         parts = [body[i:i + 7] for i in range(0, n, 7)]
         out.append(fg.msg(method=b"POST", headers=[H, (b"Transfer-Encoding", b"chunked"), (b"X-After", b"1")], raw_body=fg.chunked(parts, trailers=[(b"X-T", b"1")])))
         out.append(fg.msg(method=b"PUT", headers=[H, (b"Transfer-Encoding", b"Chunked"), (b"Content-Type", b"text/x")], raw_body=fg.chunked(parts, ext=b";e=1")))
+    # bodies that outgrow the in-memory stage of the input buffer (8 KiB) and move to a file on the way
+    for n in (8300, 20001):
+        body = bytes((65 + i % 26) for i in range(n))
+        out.append(fg.msg(method=b"POST", headers=[H, (b"Content-Length", str(n).encode())], body=body))
+        out.append(fg.msg(method=b"POST", headers=[H, (b"Transfer-Encoding", b"chunked")], raw_body=fg.chunked([body[i:i + 4099] for i in range(0, n, 4099)])))
     # Content-Length next to Transfer-Encoding: chunked (RFC 9112 lets it be processed): the environ carries the decoded length
     for clv, parts in ((b"3", [b"hello ", b"world"]), (b"4000", [b"abc"]), (b"10", []), (b"0", [b"xy"])):
         out.append(fg.msg(method=b"POST", headers=[H, (b"Content-Length", clv), (b"Transfer-Encoding", b"chunked")], raw_body=fg.chunked(parts)))
@@ -78,17 +83,29 @@ def run_batch(args):
                       "REMOTE_HOST": peer[0], "REMOTE_PORT": str(peer[1]), "SCRIPT_NAME": prefix or "", "wsgi.url_scheme": "http",
                       "SERVER_SOFTWARE": "waitress"}
     out = []
+    fs2 = None
     try:
         for i, s in items:
             variants = []
-            for cuts in ((), tuple(range(1, len(s))), (len(s) // 2,)):
-                o = fs.run(s, cuts, peer=peer)
-                ev = {"obs": o["obs"], "closed": o["closed"], "raised": o["raised"]}
-                if ev not in variants:
-                    variants.append(ev)
+            servers = [fs]
+            if len(s) > 8192:
+                # a long body is also received with an overflow threshold between the in-memory stages and its length:
+                # bytes -> BytesIO -> temporary file, the last step with content already in the buffer
+                if fs2 is None:
+                    fs2 = h_framing.FramingServer(**dict(adj, inbuf_overflow=12000))
+                    fs2.server_vars = fs.server_vars
+                servers.append(fs2)
+            for f in servers:
+                for cuts in ((), tuple(range(1, len(s))), (len(s) // 2,), tuple(range(1000, len(s), 1000))):
+                    o = f.run(s, cuts, peer=peer)
+                    ev = {"obs": o["obs"], "closed": o["closed"], "raised": o["raised"]}
+                    if ev not in variants:
+                        variants.append(ev)
             out.append((i, s, variants))
     finally:
         fs.close()
+        if fs2 is not None:
+            fs2.close()
     return out
 
 
